@@ -76,6 +76,13 @@ def verify(ctx, repo, registry, prefix, qualnames, harness, expect_covers=(), ma
             ctx.engine_error("contract refers to %s which does not exist in the current source" % q)
             return
         funcs.append(fi)
+    if concretise is None:
+        try:
+            from replay import oracles as _or
+
+            concretise = _or.for_functions([f.qualname for f in funcs])  # native replay oracle registered for these functions, if any
+        except Exception:  # noqa
+            concretise = None
     agg = {}
     reached = set()
     n_paths = 0
